@@ -82,14 +82,20 @@ func candsOf(r *gRun, key string) (*slotCands, bool) {
 	}) != nil {
 		return nil, false
 	}
-	sc.required = p.IsRequired()
+	// the requested name and the required flag are read off the tag TEXT (generated tags are `<name>[,arg…]`, names hold no
+	// comma), independently of the library's tag parser
+	rawName := tag[1:]
+	if i := strings.Index(rawName, ","); i >= 0 {
+		rawName = rawName[:i]
+	}
+	sc.required = !strings.Contains(tag, ",required=false")
 	tgt, _ := strconv.Atoi(target)
 	if qs, ok := p.Args().Find(component_definition.ArgQualifier); ok {
 		sc.hasQual, sc.quals = true, qs
 	}
-	if tag[0] == 'w' && p.TagVal != "" {
-		sc.byName, sc.name = true, p.TagVal
-		if row, ok := r.rowOf[p.TagVal]; ok && r.rows[row].obj != nil {
+	if tag[0] == 'w' && rawName != "" {
+		sc.byName, sc.name = true, rawName
+		if row, ok := r.rowOf[rawName]; ok && r.rows[row].obj != nil {
 			sc.named = row
 		}
 		return sc, true
